@@ -15,6 +15,9 @@ Definition fix_k5_applied : bool := false.   (* C11-distinct-chunk.diff *)
 Definition fix_k9_applied : bool := false.   (* C11-aggregate-result-types.diff *)
 (* C11-aggregate-sum-overflow.diff (K10) needs no switch: an overflowing SUM that does not panic is
    outside the model (floating-point sum) and the harness then emits no correspondence term *)
+Definition fix_k11_applied : bool := false.  (* C11-vector-validity.diff *)
+Definition hash_agg2_now := if fix_k11_applied then hash_agg2_fix else hash_agg2.
+Definition fix_k12_applied : bool := false.  (* C11-cypher-count-expr.diff *)
 Definition planner_type_now (f : aggf) : ltype := if fix_k9_applied then planner_type_fix f else planner_type f.
 Definition drain_distinct_now (cs : list chunk) : list chunk :=
   if fix_k5_applied then drain_distinct_fix cs else drain_distinct cs.
@@ -102,10 +105,10 @@ Definition chk_simple_agg2 (aggs : list aggf) (tys : list ltype) (cs : list chun
   ores_eqb (simple_agg2 Checked aggs tys cs) obs.
 Definition chk_hash_agg2 (gcols : list nat) (aggs : list aggf) (tys : list ltype) (cs : list chunk)
            (obs : option (list row)) : bool :=
-  ores_eqb (hash_agg2 Checked gcols aggs tys cs) obs.
+  ores_eqb (hash_agg2_now Checked gcols aggs tys cs) obs.
 Definition show_simple_agg2 (aggs : list aggf) (tys : list ltype) (cs : list chunk) := simple_agg2 Checked aggs tys cs.
 Definition show_hash_agg2 (gcols : list nat) (aggs : list aggf) (tys : list ltype) (cs : list chunk) :=
-  hash_agg2 Checked gcols aggs tys cs.
+  hash_agg2_now Checked gcols aggs tys cs.
 (** big inputs: one integer column [i mod m - off], SUM / MIN / MAX / AVG / COUNT over it *)
 Definition f_modoff (m off : Z) (i : Z) : row := [VInt (i mod m - off)].
 Definition chk_simple_agg2_mod (m off : Z) (aggs : list aggf) (tys : list ltype)
@@ -188,13 +191,20 @@ Definition chk_eng_union (a b : list Z) (obs : list Z) : bool :=
 (** [MATCH (n:L) RETURN f(n.p)] / [RETURN n.g, f(n.p)]: [vals] = the projected (group, argument)
     values in scan order; the planner's output types *)
 Definition agg_rows (vals : list (value * value)) : list row := map (fun p => [fst p; snd p]) vals.
-Definition chk_eng_agg (f : aggf) (vals : list (value * value)) (obs : option (list row)) : bool :=
-  ores_eqb (simple_agg2 Checked [f] [planner_type_now f] (scan_chunks (agg_rows vals))) obs.
-Definition chk_eng_group_agg (f : aggf) (vals : list (value * value)) (obs : option (list row)) : bool :=
-  ores_eqb (hash_agg2 Checked [0%nat] [f] [planner_type_now f] (scan_chunks (agg_rows vals))) obs.
-Definition show_eng_agg (f : aggf) (vals : list (value * value)) :=
-  (simple_agg2 Checked [f] [planner_type_now f] (scan_chunks (agg_rows vals)),
-   hash_agg2 Checked [0%nat] [f] [planner_type_now f] (scan_chunks (agg_rows vals))).
+(** the Cypher translator maps count(expr) to the count-star function (the GQL translator to
+    CountNonNull): finding C11-K12 *)
+Definition lang_agg (l : lang) (f : aggf) : aggf :=
+  match l, f with
+  | Cypher, FCount _ => if fix_k12_applied then f else FCountStar
+  | _, _ => f
+  end.
+Definition chk_eng_agg (l : lang) (f : aggf) (vals : list (value * value)) (obs : option (list row)) : bool :=
+  ores_eqb (simple_agg2 Checked [lang_agg l f] [planner_type_now f] (scan_chunks (agg_rows vals))) obs.
+Definition chk_eng_group_agg (l : lang) (f : aggf) (vals : list (value * value)) (obs : option (list row)) : bool :=
+  ores_eqb (hash_agg2_now Checked [0%nat] [lang_agg l f] [planner_type_now f] (scan_chunks (agg_rows vals))) obs.
+Definition show_eng_agg (l : lang) (f : aggf) (vals : list (value * value)) :=
+  (simple_agg2 Checked [lang_agg l f] [planner_type_now f] (scan_chunks (agg_rows vals)),
+   hash_agg2_now Checked [0%nat] [lang_agg l f] [planner_type_now f] (scan_chunks (agg_rows vals))).
 (** the aggregate without the typed vector (what the functions compute) *)
 Definition agg_untyped (f : aggf) (vals : list (value * value)) : res (list row) :=
   simple_agg2 Checked [f] [TAny] (scan_chunks (agg_rows vals)).
@@ -278,4 +288,15 @@ Definition k_sum_overflow (f : aggf) (vals : list (value * value)) : bool :=
   match f, agg_untyped f vals with
   | FSum _, Panic => true
   | _, _ => false
+  end.
+(** K11: a typed result column with a second NULL (the repaired vector would answer differently) *)
+Definition k_second_null (gcols : list nat) (aggs : list aggf) (tys : list ltype) (cs : list chunk) : bool :=
+  negb (res_eqb rows_eqb (hash_agg2 Checked gcols aggs tys cs) (hash_agg2_fix Checked gcols aggs tys cs)).
+Definition k_second_null_eng (f : aggf) (vals : list (value * value)) : bool :=
+  k_second_null [0%nat] [f] [planner_type_now f] (scan_chunks (agg_rows vals)).
+(** K12: Cypher count(expr) over a column with a NULL *)
+Definition k_cypher_count (f : aggf) (vals : list (value * value)) : bool :=
+  match f with
+  | FCount _ => existsb (fun p => match snd p with VNull => true | _ => false end) vals
+  | _ => false
   end.
